@@ -150,3 +150,49 @@ Proof.
   - destruct (update_tile find idf replace remove name r) as [r1|]; [discriminate|].
     intros _. destruct (IH eq_refl) as (l0 & f & Hl & Hn & Hf & Hd). exists l0, f. repeat split; auto. now right.
 Qed.
+
+(* ---- the association list really is a BTreeMap: kept strictly sorted by key ---- *)
+Fixpoint bt_sorted (m : props) : bool :=
+  match m with
+  | [] => true
+  | (k1, _) :: r => match r with [] => true | (k2, _) :: _ => bytes_ltb k1 k2 && bt_sorted r end
+  end.
+
+Lemma bytes_ltb_trichotomy a : forall b, bytes_eqb a b = false -> bytes_ltb a b = false -> bytes_ltb b a = true.
+Proof.
+  induction a as [|x a IH]; intros [|y b] He Hl; cbn [bytes_ltb] in *.
+  - exfalso. assert (bytes_eqb [] [] = true) by now apply bytes_eqb_eq. congruence.
+  - discriminate.
+  - reflexivity.
+  - destruct (x <? y) eqn:E1; [discriminate|]. destruct (y <? x) eqn:E2; [reflexivity|].
+    assert (x = y) by (apply N.ltb_ge in E1; apply N.ltb_ge in E2; lia). subst y.
+    apply IH; [|exact Hl]. destruct (bytes_eqb a b) eqn:E; [|reflexivity].
+    apply bytes_eqb_eq in E. subst b. assert (bytes_eqb (x :: a) (x :: a) = true) by now apply bytes_eqb_eq. congruence.
+Qed.
+
+Theorem bt_insert_sorted k v m : bt_sorted m = true -> bt_sorted (bt_insert k v m) = true.
+Proof.
+  induction m as [|[k1 v1] r IH]; intros Hs; cbn [bt_insert]; [reflexivity|].
+  destruct (bytes_eqb k k1) eqn:E1.
+  - apply bytes_eqb_eq in E1. subst k1. exact Hs.
+  - destruct (bytes_ltb k k1) eqn:E2.
+    + cbn [bt_sorted]. cbn [bt_sorted] in Hs. rewrite E2. exact Hs.
+    + assert (L : bytes_ltb k1 k = true) by exact (bytes_ltb_trichotomy k k1 E1 E2).
+      destruct r as [|[k2 v2] r2].
+      * cbn [bt_insert bt_sorted]. now rewrite L.
+      * cbn [bt_sorted] in Hs. apply andb_true_iff in Hs. destruct Hs as [H12 Hr].
+        specialize (IH Hr). cbn [bt_insert] in *.
+        destruct (bytes_eqb k k2) eqn:E3.
+        -- cbn [bt_sorted] in *. rewrite L. exact IH.
+        -- destruct (bytes_ltb k k2) eqn:E4.
+           ++ cbn [bt_sorted] in *. rewrite L. exact IH.
+           ++ cbn [bt_sorted] in *. rewrite H12. exact IH.
+Qed.
+
+Corollary bt_update_sorted new : forall m, bt_sorted m = true -> bt_sorted (bt_update m new) = true.
+Proof.
+  unfold bt_update. induction new as [|[k v] r IH]; intros m H; cbn [fold_left fst snd]; [exact H|].
+  apply IH. now apply bt_insert_sorted.
+Qed.
+Corollary bt_of_sorted ps : bt_sorted (bt_of ps) = true.
+Proof. unfold bt_of. now apply bt_update_sorted. Qed.
